@@ -164,7 +164,7 @@ def run(ctx):
                exhaustive=True)
 
 
-def validate(ctx, trace, chunk_tables=4):
+def validate(ctx, trace, chunk_tables=12):
     """Validate the recorded trace table by table group; continue after a rejected event."""
     lines = [l for l in open(trace) if l.strip()]
     # start a new chunk at every chunk_tables-th Table event
